@@ -3,7 +3,7 @@
    sites is given for the transport at hand as letters: B (bytes in hand: len(body), n-8),
    D (declared length field), C (ContentLength); "-" for none.
      A <tr> <sites> <max> <decl|-> <sent> <valid 0/1>
-         -> "v=<P:n|413|INBAND|ERR|STARVE|MALFORMED> io=<n|-> fn=<0|1> client=<...> covers=<0|1>
+         -> "v=<P:n|413|INBAND|ERR|STARVE|MALFORMED> io=<n|-> fn=<0|1> client=<...> alt=<...> covers=<0|1>
              framed=<n|-> truthful=<0|1> guard=<0|1>"
      T                      -> the pinned and the repaired table, "tr=letters ..." twice, separated by "|"
      H sock <len> <idx> | H udp <len> <idx> | H ws <idx>     -> header hex
@@ -98,8 +98,10 @@ let run line =
     let io = match log with Limit.EvIOPlugin n :: _ -> string_of_z n | _ -> "-" in
     let fn = if Stdlib.List.mem Limit.EvInvoke log then "1" else "0" in
     let framed = match Limit.framed tr decl sent with Some n -> string_of_z n | None -> "-" in
-    Printf.sprintf "v=%s io=%s fn=%s client=%s covers=%s framed=%s truthful=%s guard=%s"
-      (verdict_str v) io fn (outcome_str (Limit.client_decode (Limit.reply_of v)))
+    (* the other thing the caller may get when the server's teardown overtakes its answer (tcp, unix) *)
+    let alt = outcome_str (Limit.caller_outcome false tr v true Limit.TeardownFirst) in
+    Printf.sprintf "v=%s io=%s fn=%s client=%s alt=%s covers=%s framed=%s truthful=%s guard=%s"
+      (verdict_str v) io fn (outcome_str (Limit.client_decode (Limit.reply_of v))) alt
       (b01 (Limit.covers tr qs)) framed (b01 (Limit.truthful tr decl sent)) (b01 (Limit.pinned_guard tr decl sent))
   | ["T"] ->
     let show tab = String.concat " " (Stdlib.List.map (fun tr -> name_of tr ^ "=" ^ letters_of (tab tr)) Limit.all_transports) in
